@@ -553,3 +553,69 @@ def o16_2_torn_append(mir, tier):
     res.wall_s = time.time() - t0
     if res.violations: res.status = 'violation'
     return res
+
+
+# ---------------------------------------------------------------- O12.8 LogWriter::emit_block under failing writes
+def o12_8_emit_block(mir, tier):
+    """LogWriter::emit_block with the file by contract: every write_all / flush is recorded and free to fail.  Reference: one
+    fragment = ONE write call carrying header and payload together (a failure between two calls would leave a header without
+    its payload at the tail; a later writer appends behind it and the reader takes those records for the missing payload);
+    the writer's block offset advances by 7 + len exactly when write and flush succeeded, and is unchanged when the call fails (so
+    that after a write that failed without writing the fragments still line up with the 32 KiB blocks); the result is Ok iff
+    both succeeded."""
+    fn = mir.method('LogWriter', 'emit_block')
+    res = Result('O12.8 LogWriter::emit_block under failing writes', [fn.path, 'BlockRecord::new (inlined)'], 'fragment type free, payload length 0..65535, block offset free (< 32768); write_all and flush free to fail')
+    t0 = time.time()
+    S = log_summaries(mir); P = S['$patterns']
+    off0, n = BitVec('block_offset', 64), BitVec('payload_len', 64)
+    wok, fok = Bool('write_ok'), Bool('flush_ok')
+    def write_all(se, env, pc, f, data):
+        st = dict(env['$state']); d = se.deref(env, data) if isinstance(data, Ref) else data
+        i = len(st['writes']); st['writes'] = st['writes'] + [d]
+        ok = wok if i == 0 else Bool('write%d_ok' % i)
+        return [(ok, Enum('Ok', ((),)), st), (Not(ok), Enum('Err', ({'kind': 'io', '__ty': 'io::Error'},)), st)]
+    P[r'<Box<dyn RandomAccessFile> as std::io::Write>::write_all'] = write_all
+    def flush(se, env, pc, f):
+        st = dict(env['$state']); st['flushes'] = st['flushes'] + 1
+        return [(fok, Enum('Ok', ((),)), st), (Not(fok), Enum('Err', ({'kind': 'io', '__ty': 'io::Error'},)), st)]
+    P[r'<Box<dyn RandomAccessFile> as std::io::Write>::flush'] = flush
+    recf = mir.struct_fields('BlockRecord')
+    def ser(se, env, pc, r):
+        rec = se.deref(env, r)
+        return lib.one(env, {'kind': 'frag', 'len': bv(HDR) + rec[recf.index('data')]['len'], 'hdr_len': rec[recf.index('length')], 'type': rec[recf.index('block_type')], 'data': rec[recf.index('data')], 'off': bv(0)})
+    S['<Vec<u8> as From<&BlockRecord>>::from'] = ser
+    P[r'Vec::as_slice'] = lib.ident; P[r'<Vec<u8> as Deref>::deref'] = lib.ident
+    P[r'<LogIOError as From<.*>>::from'] = lambda se, env, pc, e: lib.one(env, Enum('IO', (e,), 'LogIOError'))
+    wf = mir.struct_fields('LogWriter')
+    for t in ('Full', 'First', 'Middle', 'Last'):
+        ex = Exec(mir, S, loop_bound=4)
+        w = mir.mk_struct('LogWriter', log_file_path={'path': 'log'}, log_file='file', current_block_offset=off0)
+        def k(ret, env, pc, ex=ex, t=t):
+            st = env['$state']; ws = st['writes']
+            ok = isinstance(ret, Enum) and ret.tag == 'Ok'
+            wv = ex.deref(env, Ref('$w'))
+            whole = len(ws) >= 1 and isinstance(ws[0], dict) and ws[0].get('kind') == 'frag'
+            posts = [('a log fragment is not handed to the file in one write call carrying header and payload (a failure between the calls leaves a header without payload at the tail of the log)',
+                      And(BoolVal(len(ws) == 1 and whole), (ws[0]['len'] == bv(HDR) + n) if whole and 'len' in ws[0] else BoolVal(False))),
+                     ('emit_block reports success although the write or the flush failed (or fails although both succeeded)', (BoolVal(ok) == And(wok, fok)) if len(ws) == 1 else BoolVal(True)),
+                     ('the writer\'s block offset does not advance by 7 + payload length exactly when the fragment was written (after a failed write the following fragments no longer line up with the blocks)',
+                      wv[wf.index('current_block_offset')] == (off0 + bv(HDR) + n if ok else off0))]
+            res.cases['%s -> %s, %d writes' % (t, 'Ok' if ok else 'Err', len(ws))] = 1
+            for label, post, m in ex.check_posts(posts, pc):
+                res.violations.append({'label': label, 'type': t, 'write_ok': bool(mval(m, wok)), 'flush_ok': bool(mval(m, fok)), 'replay': ['log_write_faults']})
+        data = {'len': n, 'kind': 'payload', 'off': bv(0)}
+        ex.top(fn, [Ref('$w'), Enum(t, (), 'BlockType'), data], {'$state': {'writes': [], 'flushes': 0}, '$w': w}, [ULE(n, bv(0xffff)), ULT(off0, bv(BLOCK))], k)
+        res.absorb(ex)
+        for pcx, msg, where in ex.panics:
+            res.panic_paths += 1; res.violations.append({'label': 'panic path: ' + msg[:80], 'replay': None, 'confirmed_by': {'reproduced': False, 'detail': 'no native scenario'}})
+    res.wall_s = time.time() - t0
+    if res.violations: res.status = 'violation'
+    return res
+
+
+def o12_8_confirm(v, out):
+    """Native: a log writer on a fault-injecting file; the k-th write call fails without writing (k = 1..8), the same writer (and,
+    separately, a reopened writer) goes on appending records up to a block boundary; the reader must return every record whose
+    append returned Ok, in order."""
+    if out.get('_rc') != 0: return (True, 'native run failed / panicked: %s' % out.get('_stderr', '')[-300:])
+    return (out.get('lost', '0') != '0', 'native: %s acknowledged log records are not read back (first: %s)' % (out.get('lost'), out.get('first_lost')))
